@@ -3,7 +3,9 @@
 E3 small-scope enumeration of pipelines.  Every pipeline of up to 3 (thorough:
 4) operator instances from the property's list is run over an endless
 instrumented source ($s, a one-shot iterator that counts pulls and raises
-Horizon - a BaseException - beyond its horizon), every lambda wrapped in
+Horizon - a BaseException - beyond its horizon; for short pipelines also a
+re-iterable collection handed over as input data, and an engine with a memory
+quota), every lambda wrapped in
 tick(); its first k results are taken (a) from the unfinalised iterator
 (engine option yaql.convertOutputData off), (b) through .take(k) and (c)
 through .first(); pipelines may end in a short-circuit search.  The same
@@ -23,20 +25,28 @@ from models import stream as S
 ID = 'C14'
 TITLE = 'streaming operators consume only what they need'
 RULE = ('all pipelines (ordered tuples of operator instances, optionally ending in a short-circuit search) x source x k x way '
-        'of pulling; a case is distinct by (expression text, source, k, way) and non-trivial when the model pipeline produces '
-        'its k results (or its search result) within 40 source elements and without an error')
+        'of pulling x (how the source is bound, engine); a case is distinct by (expression text, source, k, way, binding, '
+        'engine) and non-trivial when the model pipeline produces its k results (or its search result) within 40 source '
+        'elements and without an error')
 ASSUMPTIONS = [
     'what k results require = pulls / lambda applications of the minimal lazy generators of models/stream.py',
     'a pipeline whose model diverges, fails or needs more than 40 source elements is out of domain',
     'an exception of the implementation, or results that differ from the stream model while consumption is within the bound, '
     'are C13 matters (counted and noted, not judged here)',
     "join: only the outer (receiver) side is claimed to stream; 'member projection' is collection.key on dict elements",
+    "'+' with an operand that is not a list is concat by definition (combine_lists delegates to concat; its docstring says "
+    "'Returns two iterables concatenated', returnType iterable - the wording of the listed operators, no explicit 'lazy'): "
+    "it is enumerated as the operator spelling of concat, with its own key (ops=combine_lists)",
+    'input data: a collection that is iterable but not an iterator is converted lazily (convert_input_data: "other iterables -> '
+    'lazy map", DESIGN A.5), so a pipeline over it is bound like one over an iterator',
 ]
 BOUNDS = {
-    'quick': 'pipelines of <= 2 instances from all 27 streaming + 8 search instances, of 3 from a 14-instance core (+ searches); '
-             'sources 1,2,3,... and cyclic (1,null,2,2,3); k in {0,1,2,3} x {unfinalised iterator, take(k)} + first()',
-    'thorough': 'pipelines of <= 3 instances from all 27 + 8, of 4 from the 14-instance core with k in {0,1,2,3} on the '
-                'unfinalised iterator only; same sources',
+    'quick': 'pipelines of <= 2 instances from all 32 streaming (incl. 4 spellings of + and concat with the stream as argument) '
+             '+ 8 search instances, of 3 from a 14-instance core (+ searches); sources 1,2,3,... and cyclic (1,null,2,2,3) bound as '
+             'variable $s, k in {0,1,2,3} x {unfinalised iterator, take(k)} + first(), default engine; pipelines of <= 2 also '
+             'with the source as re-iterable input data ($, $.src, $[0]) and under an engine with yaql.memoryQuota (k = 2)',
+    'thorough': 'pipelines of <= 3 instances from all 32 + 8, of 4 from the 14-instance core with k in {0,1,2,3} on the '
+                'unfinalised iterator only; same sources and extra bindings / engine',
 }
 MODEL_LIMIT = 40
 SLACK = 50
@@ -52,17 +62,48 @@ SOURCES = {
 }
 
 
+# how the source reaches the expression, and under which engine
+ROOT = {'var': '$s', 'data': '$', 'data.dict': '$.src', 'data.list': '$[0]'}
+DEFAULT = ('var', 'default')
+EXTRA_SETTINGS = [('data', 'default'), ('data.dict', 'default'), ('data.list', 'default'), ('var', 'quota'), ('data', 'quota')]
+QUOTA = {'yaql.memoryQuota': 100000}
+
+
+class ReiterableSource(object):
+    """An endless instrumented collection that is not an iterator (it has __iter__
+    but no __next__, like a deque or a dict view): every __iter__ returns a fresh
+    counting generator, pulls are counted across all of them, pull number
+    horizon + 1 raises Horizon.  Handed to yaql as input DATA."""
+
+    def __init__(self, horizon, fn):
+        self.horizon, self.fn, self.pulls = horizon, fn, 0
+
+    def __iter__(self):
+        i = 0
+        while True:
+            if self.pulls >= self.horizon:
+                raise yq.Horizon(self.pulls + 1)
+            self.pulls += 1
+            yield self.fn(i)
+            i += 1
+
+
 class Op(object):
     def __init__(self, text, fn, lams, model, search=False, core=False, ticks=False):
         self.text, self.fn, self.lams, self.model, self.search, self.core = text, fn, lams, model, search, core
         self.ticks = ticks            # the model needs the tick counter itself (a lambda applied inside a lambda)
 
     def yaql(self):
-        return self.text.format(*['tick(1, %s)' % t for t in self.lams])
+        return self.text if '{c}' in self.text else self.text.format(*['tick(1, %s)' % t for t in self.lams])
+
+    def apply(self, receiver):
+        """The expression text of this operator applied to the expression text of its input ({c}: not a method call)."""
+        t = self.yaql()
+        return t.replace('{c}', receiver) if '{c}' in t else receiver + '.' + t
 
     @property
     def name(self):
-        return self.text.format(*self.lams)
+        return self.text if '{c}' in self.text else self.text.format(*self.lams)
 
 
 OPS = [
@@ -81,6 +122,12 @@ OPS = [
     Op('skipWhile({0})', 'skip_while', ['$ = null'], S.skip_while),
     Op('append(9)', 'append', [], lambda s: S.append(s, 9)),
     Op('concat([9])', 'concat', [], lambda s: S.concat(s, [9])),
+    Op('[9].concat({c})', 'concat', [], lambda s: S.concat([9], s)),             # the stream as an argument
+    # '+' is the operator spelling of concat whenever an operand is not a list (collections.py: combine_lists)
+    Op('({c} + [9])', 'combine_lists', [], lambda s: S.concat(s, [9])),
+    Op('([9] + {c})', 'combine_lists', [], lambda s: S.concat([9], s)),
+    Op('({c} + [7, 8].select($))', 'combine_lists', [], lambda s: S.concat(s, [7, 8])),
+    Op('([7, 8].select($) + {c})', 'combine_lists', [], lambda s: S.concat([7, 8], s)),
     Op('distinct()', 'distinct', [], S.distinct, core=True),
     Op('distinct({0})', 'distinct', ['$ mod 2'], S.distinct),
     Op('enumerate()', 'enumerate_', [], S.enumerate_, core=True),
@@ -135,8 +182,10 @@ def variants(ops, tier):
     return [(k, way) for k in (0, 1, 2, 3) for way in ('raw', 'take')] + [(1, 'first')]
 
 
-def text_of(ops, k, way):
-    t = '$s' + ''.join('.' + o.yaql() for o in ops)
+def text_of(ops, k, way, binding='var'):
+    t = ROOT[binding]
+    for o in ops:
+        t = o.apply(t)
     if way == 'take':
         t += '.take(%d)' % k
     elif way == 'first':
@@ -165,13 +214,20 @@ def run_model(ops, source, k, way):
     return ('v', value, src.pulls, ticks.n)
 
 
-def run_impl(text, source, horizon, k, way):
+def run_impl(text, source, horizon, k, way, setting=DEFAULT):
     """(status, value, pulls, ticks); status ok | horizon | error:<class>."""
+    binding, engine = setting
     ctx, log = yq.tick_context()
-    src = yq.Source(horizon, fn=SOURCES[source])
+    options = dict(RAW if way == 'raw' else {}, **(QUOTA if engine == 'quota' else {}))
+    if binding == 'var':
+        src = yq.Source(horizon, fn=SOURCES[source])
+        variables, data = {'s': src}, yq.NO_VALUE
+    else:
+        src = ReiterableSource(horizon, SOURCES[source])
+        variables, data = None, {'data': src, 'data.dict': {'src': src}, 'data.list': [src]}[binding]
     value = None
     try:
-        value = yq.evaluate(text, variables={'s': src}, options=RAW if way == 'raw' else None, context=ctx)
+        value = yq.evaluate(text, data=data, variables=variables, options=options, context=ctx)
         if way == 'raw':
             value = list(itertools.islice(iter(value), k))
         status = 'ok'
@@ -194,13 +250,13 @@ def unfold(v):
     return [unfold(x) for x in v]
 
 
-def verdict(ops, source, k, way):
+def verdict(ops, source, k, way, setting=DEFAULT):
     """(None, reason) when out of domain, else ((ok, kind of failure, detail, status, pulls - model pulls), '')."""
     m = run_model(ops, source, k, way)
     if m[0] == 'ood':
         return None, m[1]
     _, mval, mpulls, mticks = m
-    status, value, pulls, ticks = run_impl(text_of(ops, k, way), source, mpulls + SLACK, k, way)
+    status, value, pulls, ticks = run_impl(text_of(ops, k, way, setting[0]), source, mpulls + SLACK, k, way, setting)
     detail = 'pulls %d (model %d), lambda applications %d (model %d), status %s' % (pulls, mpulls, ticks, mticks, status)
     if status == 'horizon':
         return (False, 'over-consumption', detail + ': reached the horizon', status, pulls - mpulls), ''
@@ -243,38 +299,63 @@ def blame(ops, source, k, way, kind):
     return '%s ops=%s' % (kind, '|'.join(o.fn for o in sub))
 
 
+def cases(ops, tier):
+    """(source, k, way, setting) of a pipeline.  Every pipeline runs on both
+    sources bound as the variable $s under the default engine; pipelines of up
+    to 2 operators additionally get the source as input data (a re-iterable
+    collection: top level, inside a dict, inside a list) and an engine with a
+    memory quota, on the counting source with k = 2."""
+    for source in sorted(SOURCES):
+        for k, way in variants(ops, tier):
+            yield source, k, way, DEFAULT
+    if len(ops) <= 2:
+        for setting in EXTRA_SETTINGS:
+            for k, way in ([(None, 'search')] if ops[-1].search else [(2, 'raw'), (2, 'take')]):
+                yield 'ints', k, way, setting
+
+
+def failure_key(ops, source, k, way, setting, kind):
+    if setting != DEFAULT:
+        v, _ = verdict(ops, source, k, way)
+        if v is not None and v[0]:          # the same pipeline is within the bound on a plain iterator, default engine
+            if setting[0] != 'var':
+                return '%s source handed over as input data (re-iterable collection, binding %s)' % (kind, setting[0])
+            return '%s engine with yaql.memoryQuota ops=%s' % (kind, '|'.join(o.fn for o in ops))
+    return blame(ops, source, k, way, kind)
+
+
 def job(tier, j, njobs):
     res = Result()
     for ops in itertools.islice(pipelines(tier), j, None, njobs):
-        for source in sorted(SOURCES):
-            for k, way in variants(ops, tier):
-                text = text_of(ops, k, way)
-                case = {'ops': [o.name for o in ops], 'source': source, 'k': k, 'way': way}
-                res.case((text, source, k, way))
-                v, why = verdict(ops, source, k, way)
-                if v is None:
-                    res.out_of_domain += 1
-                    res.outcomes['ood: ' + why.split(':')[0]] += 1
-                    continue
-                res.evaluations += 1
-                res.transitions += len(ops)
-                ok, kind, detail, status, dpulls = v
-                if not ok:
-                    res.nontrivial += 1
-                    res.outcomes['over the bound (%s)' % status.split(':')[0]] += 1
-                    res.fail(blame(ops, source, k, way, kind), case, '%s on %s: %s' % (text, source, detail))
-                    continue
-                if status.startswith('error'):
-                    res.outcomes['implementation raised where the model has a value (C13 matter)'] += 1
-                    continue
-                if status.startswith('values differ'):
-                    # consumption was within the bound; what the results are is judged by C13, here only reported
-                    res.outcomes['results differ from the stream model (C13 matter)'] += 1
-                    if j == 0 and not res.notes:
-                        res.notes.append('%s on %s: %s' % (text, source, status[:160]))
-                    continue
+        for source, k, way, setting in cases(ops, tier):
+            text = text_of(ops, k, way, setting[0])
+            case = {'ops': [o.name for o in ops], 'source': source, 'k': k, 'way': way, 'setting': list(setting)}
+            res.case((text, source, k, way, setting))
+            v, why = verdict(ops, source, k, way, setting)
+            if v is None:
+                res.out_of_domain += 1
+                res.outcomes['ood: ' + why.split(':')[0]] += 1
+                continue
+            res.evaluations += 1
+            res.transitions += len(ops)
+            ok, kind, detail, status, dpulls = v
+            if not ok:
                 res.nontrivial += 1
-                res.outcomes['%s: pulls = model %+d' % (way, dpulls)] += 1
+                res.outcomes['over the bound (%s)' % status.split(':')[0]] += 1
+                res.fail(failure_key(ops, source, k, way, setting, kind), case,
+                         '%s on %s, source as %s, %s engine: %s' % (text, source, setting[0], setting[1], detail))
+                continue
+            if status.startswith('error'):
+                res.outcomes['implementation raised where the model has a value (C13 matter)'] += 1
+                continue
+            if status.startswith('values differ'):
+                # consumption was within the bound; what the results are is judged by C13, here only reported
+                res.outcomes['results differ from the stream model (C13 matter)'] += 1
+                if j == 0 and not res.notes:
+                    res.notes.append('%s on %s: %s' % (text, source, status[:160]))
+                continue
+            res.nontrivial += 1
+            res.outcomes['%s%s: pulls = model %+d' % (way, '' if setting == DEFAULT else ' (%s, %s)' % setting, dpulls)] += 1
         if j == 0 and len(ops) == 2 and len(res.samples) < 3 and not ops[-1].search:
             m = run_model(ops, 'ints', 3, 'raw')
             if m[0] == 'v':
@@ -295,13 +376,14 @@ def finish(total, tier):
 
 def replay(case):
     ops = [BY_NAME[n] for n in case['ops']]
+    setting = tuple(case.get('setting', DEFAULT))
     m = run_model(ops, case['source'], case['k'], case['way'])
     if m[0] == 'ood':
         return {'observed': None, 'expected': 'out of domain: ' + m[1], 'ok': True}
-    text = text_of(ops, case['k'], case['way'])
-    status, value, pulls, ticks = run_impl(text, case['source'], m[2] + SLACK, case['k'], case['way'])
-    v, _ = verdict(ops, case['source'], case['k'], case['way'])
-    return {'text': text, 'source': case['source'],
+    text = text_of(ops, case['k'], case['way'], setting[0])
+    status, value, pulls, ticks = run_impl(text, case['source'], m[2] + SLACK, case['k'], case['way'], setting)
+    v, _ = verdict(ops, case['source'], case['k'], case['way'], setting)
+    return {'text': text, 'source': case['source'], 'setting': list(setting),
             'observed': {'status': status, 'pulls': pulls, 'lambda_applications': ticks, 'value': repr(value)},
             'expected': {'pulls_at_most': m[2] + 1, 'lambda_applications_at_most': m[3] + 1, 'value': repr(m[1])},
             'ok': v[0]}
